@@ -569,6 +569,40 @@ static Family cookie_family(const std::string &tier)
   return f;
 }
 
+// ----------------------------------------------------------- C03: wire frames
+static Family wire_family(const std::string &tier)
+{
+  Family f;
+  f.name = "wire";
+  f.cfgs.push_back(cfg("udp", 1, 2, 0));
+  f.cfgs.push_back(cfg("udp-edns-0x20", 2, 2, ARES_FLAG_EDNS | ARES_FLAG_DNS0x20));
+  f.cfgs.push_back(cfg("tcp", 1, 2, ARES_FLAG_USEVC));
+  {
+    Cfg c          = cfg("tcp-edns-inprogress", 1, 2, ARES_FLAG_USEVC | ARES_FLAG_EDNS);
+    c.connect_mode = 1;
+    f.cfgs.push_back(c);
+  }
+  {
+    Cfg c              = cfg("tcp-pendingwrite-stayopen", 1, 2, ARES_FLAG_USEVC | ARES_FLAG_STAYOPEN);
+    c.pending_write_cb = true;
+    f.cfgs.push_back(c);
+  }
+  f.reqs.push_back(rq(10, "www.example.com"));
+  f.reqs.push_back(rq(10, "mail.sub.example.org", 28));
+  f.reqs.push_back(rq(10, "a.b.c.d.example.net", 16));
+  f.reqs.push_back(rq(2, "plain.example.com"));
+  f.req_menu   = { 0, 1, 2, 3 };
+  f.replies    = { RK_DATA, RK_TC, RK_FORMERR_NOOPT };
+  f.faults     = { FS_SEND_SHORT, FS_SEND_WOULDBLOCK };
+  f.evmask     = EVBIT(EV_REQ) | EVBIT(EV_REPLY) | EVBIT(EV_IO) | EVBIT(EV_TIMER) | EVBIT(EV_TCP) | EVBIT(EV_FAULT) | EVBIT(EV_WRITECB);
+  f.max_req    = 3;
+  f.max_depth  = tier == "quick" ? 5 : 7;
+  f.max_dev    = 1;
+  f.default_oracles = "C03";
+  f.end_oracle = [](World &w, const History &h) { oracle_c03_wire(w, h); };
+  return f;
+}
+
 const Family *find_family(const std::string &name, const std::string &tier)
 {
   static std::map<std::string, Family> cache;
@@ -588,6 +622,7 @@ const Family *find_family(const std::string &name, const std::string &tier)
   else if (name == "search") f = search_family(tier);
   else if (name == "addrs") f = addrs_family(tier);
   else if (name == "cookie") f = cookie_family(tier);
+  else if (name == "wire") f = wire_family(tier);
   else return nullptr;
   cache[k] = f;
   return &cache[k];
